@@ -252,8 +252,61 @@ def analyse(src: Source) -> List[Report]:
     if len(classes) != 1:
         raise AnalysisError("class Time not found in jellyfysh/base/time.py")
     cls = classes[0]
+    # canonical view of the class: static / private helpers inlined into the methods that use them, class-level numeric constants
+    # (`Time._UNIT`) replaced by their values -- the interpreters below read what a method does, not how it is split up
+    import copy
+    from ..normalize import canon
+    from ..pyfront import const_value
+    prog = Program(src)
+    ci = next((c for c in prog.classes_in(TIME_FILE) if c.name == "Time"), None)
+    if ci is not None:
+        class _Consts(ast.NodeTransformer):
+            def visit_Attribute(self, node: ast.Attribute):
+                self.generic_visit(node)
+                if isinstance(node.value, ast.Name) and node.value.id in ("self", "cls", "Time") and isinstance(node.ctx, ast.Load):
+                    v = const_value(prog, ci, node)
+                    if isinstance(v, (int, float)) and not isinstance(v, bool):
+                        return ast.copy_location(ast.Constant(value=v), node)
+                return node
+        cls = copy.copy(cls)
+        cls.body = [(_Consts().visit(copy.deepcopy(canon(prog, ci, m))) if isinstance(m, ast.FunctionDef) else m) for m in cls.body]
     methods = {m.name: m for m in cls.body if isinstance(m, ast.FunctionDef)}
     # ---- R14.1 ------------------------------------------------------------------------------------------------
+    # comparisons are decided from the orderings of the two quotients and of the two remainders alone: any arithmetic on a
+    # quotient or remainder inside a comparison method (e.g. comparing the float sums quotient + remainder) rounds to
+    # ulp(quotient) and cannot be the exact order
+    for mname in COMPARISONS:
+        m = methods.get(mname)
+        if m is None:
+            continue
+        for n in ast.walk(m):
+            if isinstance(n, ast.BinOp) and any(isinstance(x, ast.Attribute) and x.attr in Q_NAMES + R_NAMES for x in ast.walk(n)):
+                rep.ob("R14.1-exact-comparison", False, Loc(TIME_FILE, n.lineno, f"Time.{mname}"), n,
+                       "a comparison method of Time computes with quotient / remainder instead of comparing them pairwise: the float "
+                       "result has the resolution of the quotient, two times closer than ulp(quotient) compare wrongly")
+        rep.ob("R14.1-exact-comparison", True, Loc(TIME_FILE, m.lineno, f"Time.{mname}"), f"Time.{mname}: no arithmetic on quotient / remainder", "")
+    # the C heap compares entry times the same way: its time fields are only compared and copied, never added or subtracted
+    from ..cfront import CUnit, strip as cstrip, text as ctext
+    from .c06 import HEAP_C
+    unit = CUnit(src, HEAP_C)
+    tfields = [f.split()[-1] for f in unit.fields("HeapEntry") if f.startswith("double")]
+    ip = unit.params("insert")
+    tnames = set(tfields) | set(ip[1:3])
+    n_c = 0
+    for fname, fnode in unit.functions.items():
+        for n in fnode.walk():
+            if n.kind in ("BinaryOperator", "CompoundAssignOperator") and n.props.get("opcode") in ("+", "-", "*", "/", "+=", "-=", "*=", "/="):
+                def is_time(x) -> bool:
+                    x = cstrip(x)
+                    return (x.kind == "MemberExpr" and x.props.get("name") in tfields) or \
+                        (x.kind == "DeclRefExpr" and fname == "insert" and x.props.get("ref") in ip[1:3])
+                if any(is_time(c) for c in n.children) or any(is_time(x) for c in n.children for x in cstrip(c).walk()
+                                                              if cstrip(c).kind in ("BinaryOperator", "ParenExpr")):
+                    n_c += 1
+                    rep.ob("R14.1-exact-comparison", False, Loc(HEAP_C, n.line, fname), ctext(n),
+                           "heap.c computes with the quotient / remainder of a candidate time: entry times must be compared field by field "
+                           "(quotient, then remainder); a float sum or difference has only the resolution of the quotient")
+    rep.ob("R14.1-exact-comparison", True, Loc(HEAP_C, 0, ""), f"heap.c: time fields {sorted(tnames)} only compared and copied", "")
     for mname, op in COMPARISONS.items():
         m = methods.get(mname, methods.get("__eq__"))
         loc = Loc(TIME_FILE, m.lineno if m else cls.lineno, f"Time.{mname}")
@@ -307,7 +360,6 @@ def analyse(src: Source) -> List[Report]:
                                    Loc(TIME_FILE, a.lineno, f"Time.{n.name}"), a,
                                    "only the constructor and update may write the representation")
     # ---- R14.4 ------------------------------------------------------------------------------------------------
-    prog = Program(src)
     rep.unit("python_modules", len(prog.modules))
     for mi in prog.modules.values():
         if mi.file == TIME_FILE:
@@ -447,4 +499,12 @@ TWINS = [
          "        if isinf(other):\n            return Time(other, other)\n"
          "        carry, new_remainder = divmod(other + self._remainder, 1.0)\n"
          "        return Time(carry + self._quotient, new_remainder)"),
+]
+MUTANTS += [
+    Edit("less-than on the float sums", TIME_FILE,
+         "        return self._quotient < other.quotient or (self._quotient == other.quotient\n                                                   and self._remainder < other.remainder)",
+         "        return self._quotient + self._remainder < other.quotient + other.remainder", "R14.1"),
+    Edit("heap sift-up compares the float sums", "jellyfysh/scheduler/heap_scheduler/heap.c",
+         "    while (time_quotient < heap->heap_entries[parent_position].time_quotient ||\n              (time_quotient == heap->heap_entries[parent_position].time_quotient\n               && time_remainder < heap->heap_entries[parent_position].time_remainder)) {",
+         "    while (time_quotient + time_remainder < heap->heap_entries[parent_position].time_quotient + heap->heap_entries[parent_position].time_remainder) {", "R14.1"),
 ]
